@@ -333,6 +333,54 @@ fn mutate(dec: &str, m: &str, arg: &str, base: &[u8], rng: &mut rand::rngs::StdR
             }
             b
         }
+        "retype" => {
+            // one item of the document replaced by a well-formed value of another type (the document stays well-formed)
+            if cborish || dec == "authdata" {
+                let base_off = if dec == "authdata" { 55 + usize::from(u16::from_be_bytes([*b.get(53).unwrap_or(&0), *b.get(54).unwrap_or(&0)])) } else { 0 };
+                let tail = &b[base_off.min(b.len())..];
+                let hs = cbor_headers(tail);
+                if let Some(&(off, _major, _hl, _)) = hs.choose(rng) {
+                    let mut scratch = vec![];
+                    let end = cbor_item_end(tail, off, &mut scratch).unwrap_or(tail.len()).min(tail.len());
+                    let repl: &[&[u8]] = &[&[0x00], &[0x20], &[0x18, 0xff], &[0x1b, 0xff, 0xff, 0xff, 0xff, 0xff, 0xff, 0xff, 0xff],
+                        &[0x3b, 0xff, 0xff, 0xff, 0xff, 0xff, 0xff, 0xff, 0xff], &[0x40], &[0x41, 0x00], &[0x60], &[0x61, 0x61], &[0x80], &[0x81, 0x00],
+                        &[0xa0], &[0xa1, 0x00, 0x00], &[0xf4], &[0xf5], &[0xf6], &[0xf7], &[0xf9, 0x7e, 0x00], &[0xfb, 0x7f, 0xf0, 0, 0, 0, 0, 0, 0],
+                        &[0xc0, 0x60], &[0xc2, 0x41, 0x01], &[0x9f, 0xff], &[0xbf, 0xff], &[0x5f, 0xff]];
+                    let mut v = b[..base_off.min(b.len()) + off].to_vec();
+                    v.extend_from_slice(repl.choose(rng).unwrap());
+                    v.extend_from_slice(&tail[end..]);
+                    return v;
+                }
+                b
+            } else {
+                let Ok(mut v) = serde_json::from_slice::<Value>(&b) else { return b };
+                fn count(v: &Value) -> usize {
+                    1 + match v {
+                        Value::Array(a) => a.iter().map(count).sum(),
+                        Value::Object(m) => m.values().map(count).sum(),
+                        _ => 0,
+                    }
+                }
+                fn replace(v: &mut Value, k: &mut usize, with: &Value) -> bool {
+                    if *k == 0 {
+                        *v = with.clone();
+                        return true;
+                    }
+                    *k -= 1;
+                    match v {
+                        Value::Array(a) => a.iter_mut().any(|x| replace(x, k, with)),
+                        Value::Object(m) => m.values_mut().any(|x| replace(x, k, with)),
+                        _ => false,
+                    }
+                }
+                let repl = [json!(null), json!(true), json!(0), json!(-1), json!(1e308), json!(1.5), json!(""), json!("x"), json!([]), json!({}),
+                            json!([[]]), json!({"a": {"b": []}}), json!(18446744073709551615u64), json!(-9223372036854775808i64), json!("\u{0}"),
+                            json!("99999999999999999999999999"), json!([1, "two", null])];
+                let mut k = rng.gen_range(0..count(&v));
+                replace(&mut v, &mut k, repl.choose(rng).unwrap());
+                serde_json::to_vec(&v).unwrap()
+            }
+        }
         "manyentries" => b,     // grown in the child (expand_many), the inputs file carries the valid encoding only
         "bigseq" => {
             // arg = "<present>:<declared>": a byte string or list member re-encoded as a definite-length array that
